@@ -66,11 +66,13 @@ func (saveloadStream) Gen(r *rand.Rand, tier string, idx int) []string {
 		lines = append(lines, sprintf("oracle c13 %d %d %d", seed(), pick(r, 0, 1, 2, 3, 3), seed()))
 	}
 	lines = append(lines, sprintf("oracle c13bytes %d %d %d", seed(), pick(r, 1, 2, 4), n))
+	lines = append(lines, slSelGen(r)...)
 	return lines
 }
 
 func (saveloadStream) Exhaustive(tier string) [][]string {
 	var res [][]string
+	res = append(res, slSelExhaustive())
 	for s := 1; s <= 40; s++ {
 		sc := []string{
 			sprintf("oracle c12 %d %d", s, s%6),
@@ -100,6 +102,11 @@ func (saveloadStream) Tag(lines, outs []string) (bool, []string) {
 			continue
 		}
 		o := outs[i]
+		if f[0] == "ss" {
+			tags = append(tags, "sel:"+o)
+			nt = true
+			continue
+		}
 		if m := slTagRe.FindStringSubmatch(o); m != nil && m[1] != "" {
 			for _, t := range strings.Split(m[1], ",") {
 				tags = append(tags, f[1]+":"+t)
@@ -240,6 +247,9 @@ func (e *slExec) Do(line string) string {
 	idx := e.nline
 	e.nline++
 	f := fields(line)
+	if len(f) > 0 && f[0] == "ss" {
+		return slSelDo(f)
+	}
 	if len(f) < 3 || f[0] != "oracle" {
 		return "unsupported"
 	}
